@@ -5,12 +5,17 @@ from . import core
 HOOK_COMMITS = ["070994d"]
 NOT_APPLICABLE = {}
 
-PROPS = {
-    "C06": dict(mod="c06", level="exploration", min_nontrivial=1000,
-                technique="runtime reference-model monitor (Python int oracle) over seeded operand/producer sweeps with representation flag observed",
-                claim="Held on every executed (operator, operands, producer) case: each result of the real interpreter is compared with Python's exact int arithmetic; operands cross +-2^63 and are produced in machine-word and big representation. Exploration, not proof: says nothing about operand values not generated.",
-                note="Trusts CPython int arithmetic and the harness's structural value dump; is_prime/factorize operands bounded (trial division)."),
-}
+# every property module vf/props/cNN.py carries its own REG dict
+PROPS = {}
+for _i in range(1, 18):
+    _pid = "C%02d" % _i
+    try:
+        _m = __import__("vf.props.c%02d" % _i, fromlist=["REG"])
+    except ModuleNotFoundError as e:
+        if ("c%02d" % _i) in str(e):
+            continue
+        raise
+    PROPS[_pid] = dict(_m.REG, mod="c%02d" % _i)
 
 
 def run(prop, tier, seed):
